@@ -83,6 +83,32 @@ var fieldSpecs = []fieldSpec{
 	{"state", assets.FieldTypeState},
 	{"district", assets.FieldTypeDistrict},
 	{"ward", assets.FieldTypeWard},
+	// field keys that are also the name of an attribute or of a URN scheme: the same (key, operator,
+	// value) then names two different properties, told apart only by the property type. Such fields
+	// are reachable only through the "fields." prefix.
+	{"name", assets.FieldTypeText},
+	{"language", assets.FieldTypeText},
+	{"tel", assets.FieldTypeText},
+	{"tickets", assets.FieldTypeNumber},
+	{"created_on", assets.FieldTypeDatetime},
+	{"urn", assets.FieldTypeNumber},
+}
+
+// noSetCheckKeys: Condition.validate refuses = "" and != "" for these property keys (whatever the
+// property type is).
+var noSetCheckKeys = map[string]bool{"uuid": true, "id": true, "status": true, "created_on": true, "tickets": true}
+
+// collides reports whether a field key is also an attribute name or a URN scheme.
+func collides(key string) bool {
+	if _, isAttr := attrTypes[key]; isAttr {
+		return true
+	}
+	for _, s := range schemeNames {
+		if s == key {
+			return true
+		}
+	}
+	return false
 }
 
 var groupNames = []string{"Testers", "U-Reporters", "Males"}
@@ -202,7 +228,11 @@ func textValue(r *fw.Rand) string {
 // hostileValue: arbitrary valid UTF-8, biased to quotes, backslashes (trailing), operators,
 // parentheses and keywords (the quantifier of C14).
 func hostileValue(r *fw.Rand) string {
-	switch r.Intn(12) {
+	switch r.Intn(15) {
+	case 12, 13:
+		return confusableValue(r)
+	case 14:
+		return controlMixValue(r)
 	case 0:
 		return fw.Pick(r, []string{`a\`, `\`, `\\`, `a\\`, `x y\`, `"\`, `a"\`, `\\\`, `é\`, "a\n\\"})
 	case 1:
@@ -549,7 +579,11 @@ func (t *treeGen) condition() *node {
 			}
 			op := fw.Pick(r, []string{"=", "!=", ">", ">=", "<", "<="})
 			if r.Chance(0.15) {
-				return cond("field", fw.Pick(r, fieldKeysOfType(assets.FieldTypeNumber)), eqne(), "")
+				key := fw.Pick(r, fieldKeysOfType(assets.FieldTypeNumber))
+				if noSetCheckKeys[key] {
+					continue
+				}
+				return cond("field", key, eqne(), "")
 			}
 			return cond("field", fw.Pick(r, fieldKeysOfType(assets.FieldTypeNumber)), op, fw.Pick(r, validNumbers))
 		case 7:
